@@ -317,3 +317,27 @@ CHECK_ORDER = REG_ORD.add(Contract(
                     "pairs so far": "combos_ok(order_match, _seq1, k)"})},
     spec_fns=dict(consistent=consistent, pairs_ok=pairs_ok, table_ok=table_ok, combos_ok=combos_ok, nn=nn, fo_def=fo_def, mo_symmetric=mo_symmetric, implies=lambda a, b: z3.Implies(a, b) if not isinstance(a, bool) else (b if a else True)),
     props=("C02",), note="order specifications are opaque values (only compared, hashed and handed to match_order); the table is an insertion-ordered dict"))
+
+
+def witness_check_order(rnd):
+    """conformance test inputs: order specifications as vermouth writes them, and the meaning of the two uninterpreted symbols"""
+    from vermouth.processors.do_links import match_order
+    pool = [0, 1, -1, 2, ">", ">>", "<", "*", "**"]
+    n = rnd.randint(0, 5)
+    orders = [rnd.choice(pool) for _ in range(n)]
+    base = {}
+    resids = []
+    for o in orders:
+        if o not in base or rnd.random() < 0.15:
+            base.setdefault(o, rnd.randint(1, 6))
+            resids.append(base[o] if rnd.random() < 0.85 else rnd.randint(1, 6))
+        else:
+            resids.append(base[o])
+    if rnd.random() < 0.2:
+        resids.append(3)
+    return ({"resids": resids, "orders": orders},
+            {"vermouth_match_order": lambda a, r1, b, r2: match_order(a, int(r1), b, int(r2)),
+             "first_occurrence": lambda o: orders.index(o) if o in orders else -1, "__names__": pool})
+
+
+CHECK_ORDER.witness = witness_check_order
